@@ -16,7 +16,9 @@ says, nothing more:
   all other cells of the region are left empty (one empty paragraph);
 * `split(a)` is refused unless `a` is the origin of a region; otherwise the region disappears and
   all its cells are independent again (text stays where it is: in the former origin);
-* row heights / column widths are plain integers; the frame size is their sum.
+* row heights / column widths are plain integers; the frame size is their sum (for a table loaded from
+  a file: from the first assignment of a width / height on, `sync_w` / `sync_h`);
+* `set_regions()` installs pre-existing merged regions (tables taken from PowerPoint-authored decks).
 
 Operations are tuples (JSON-able as lists):
     ("m", ra, ca, rb, cb)    cell(ra,ca).merge(cell(rb,cb))
@@ -33,7 +35,7 @@ OK, NOOP, REFUSE = "ok", "noop", "refuse"
 
 
 class TableRef:
-    __slots__ = ("r", "c", "widths", "heights", "region", "paras")
+    __slots__ = ("r", "c", "widths", "heights", "region", "paras", "sync_w", "sync_h")
 
     def __init__(self, r, c, widths, heights, paras):
         self.r, self.c = r, c
@@ -43,6 +45,21 @@ class TableRef:
         self.region = [[None] * c for _ in range(r)]
         # paras[i][j] is the list of paragraph strings of the cell (never empty: [""] = empty cell)
         self.paras = [[list(paras[i][j]) or [""] for j in range(c)] for i in range(r)]
+        # is the frame width/height known to equal the sum?  True for a table created through the API; for
+        # a table loaded from a file it is whatever the file says until the first width/height assignment
+        self.sync_w = self.sync_h = True
+
+    def set_regions(self, rects):
+        """Install pre-existing regions; return False when they are not disjoint rectangles inside the grid."""
+        for top, left, h, w in rects:
+            if h * w < 2 or top < 0 or left < 0 or top + h > self.r or left + w > self.c:
+                return False
+            for i in range(top, top + h):
+                for j in range(left, left + w):
+                    if self.region[i][j] is not None:
+                        return False
+                    self.region[i][j] = (top, left, h, w)
+        return True
 
     def copy(self):
         m = TableRef.__new__(TableRef)
@@ -51,13 +68,14 @@ class TableRef:
         m.heights = list(self.heights)
         m.region = [list(row) for row in self.region]
         m.paras = [[list(p) for p in row] for row in self.paras]
+        m.sync_w, m.sync_h = self.sync_w, self.sync_h
         return m
 
     def fingerprint(self):
         """Hashable value identifying the abstract state."""
         return (tuple(tuple(row) for row in self.region),
                 tuple(tuple(tuple(p) for p in row) for row in self.paras),
-                tuple(self.widths), tuple(self.heights))
+                tuple(self.widths), tuple(self.heights), self.sync_w, self.sync_h)
 
     # ---- queries -----------------------------------------------------------------------------
     def regions(self):
@@ -145,10 +163,12 @@ class TableRef:
         if k == "h":
             n = self.copy()
             n.heights[op[1]] = op[2]
+            n.sync_h = True
             return OK, n
         if k == "w":
             n = self.copy()
             n.widths[op[1]] = op[2]
+            n.sync_w = True
             return OK, n
         raise ValueError("unknown op %r" % (op,))
 
